@@ -2,6 +2,8 @@ import TexcraftModel.Lemmas.C18
 import TexcraftModel.Lemmas.C18Cst
 import TexcraftModel.Lemmas.C18Build
 import TexcraftModel.Lemmas.C18Scaled
+import TexcraftModel.Lemmas.C18Text
+import TexcraftModel.Lemmas.C18Format
 
 /-!
 # C18 — the Box language: property theorems
@@ -15,6 +17,14 @@ Leaf level (text ⇄ token values)
 * `scaled_text_roundtrip`     every dimension with |s| < 2^30 sp   (given `ScaledRoundTrip`)
 * `infinite_glue_text_roundtrip` every fil/fill/filll amount with |s| < 2^31
 * `glue_order_keyword`, `glue_order_unit`
+
+Text level
+* `text_round_trip`, `text_round_trip_each`   printing an expressible list to *text* (the
+                      printer's real layout) and parsing the text back gives the list
+* `lexer_inverts_printer`  `lex (render cs) = tokens cs` for every printable CST
+* `lex_total`, `lex_fuel_irrelevant`  the lexer model is total (fuel suffices)
+* `format_text_idempotent`, `format_text_preserves_meaning`, `lexer_output_printable`
+                      the format laws on text (texts without comments)
 
 Token level
 * `parse_print`       printing any expressible list (all 13 node kinds, nested, runs of
@@ -43,42 +53,18 @@ example : scanStr .norm (escapeStr (fun c => c.toNat ≥ 32 && c.toNat < 127)
 /-- The double quote, which the quantifier of the property excludes, round-trips as well. -/
 example : escapeStr (fun _ => true) ['"'] = ['\\', '"'] := by decide
 
+/-- The same as a whole token: the printed string followed by any text lexes to the string
+token followed by the tokens of that text. -/
+theorem string_text_roundtrip (raw : Char → Bool) (s : Str) (rest : List Char) :
+    lex (printStr raw s ++ rest) = (lex rest).cons (.str s) :=
+  lex_str raw s rest
+
 /-- `{}` of an `i32` other than `i32::MIN`, followed by anything that does not continue a
-number, lexes to the same integer. -/
+number, lexes to the same integer (and the lexer continues with the rest). -/
 theorem integer_text_roundtrip (n : Int) (rest : List Char)
-    (hn : -2147483647 ≤ n ∧ n ≤ 2147483647) (hr : Terminated rest) (f : Nat) :
-    lexAux (f + 1) (printInt n ++ rest) = (lexAux f rest).cons (.int n) := by
-  unfold printInt
-  by_cases hneg : n < 0
-  · simp only [hneg, if_true, List.cons_append]
-    have h := lexNumber_int true n.natAbs rest (by omega) hr
-    have e : ((if true = true then -1 else 1 : Int)) * (n.natAbs : Int) = n := by simp; omega
-    rw [e] at h
-    simp [lexAux, isWs, h]
-  · simp only [hneg, if_false]
-    have h := lexNumber_int false n.natAbs rest (by omega) hr
-    have e : ((if false = true then -1 else 1 : Int)) * (n.natAbs : Int) = n := by simp; omega
-    rw [e] at h
-    have hne := natDigits_ne_nil n.natAbs
-    have hlt := natDigits_lt n.natAbs
-    unfold natChars at h ⊢
-    cases hd : natDigits n.natAbs with
-    | nil => exact absurd hd hne
-    | cons d ds =>
-      rw [hd] at h hlt
-      have hd10 : d < 10 := hlt d (by simp)
-      have hdv := digitVal_digitChar hd10
-      simp only [List.map_cons, List.cons_append] at h ⊢
-      have hc : ∀ c : Char, digitVal c = none → digitChar d ≠ c := by
-        intro c hc heq; rw [heq] at hdv; rw [hc] at hdv; cases hdv
-      simp only [lexAux, hc '#' (by decide), hc '(' (by decide), hc ')' (by decide),
-        hc '[' (by decide), hc ']' (by decide), hc ',' (by decide), hc '=' (by decide),
-        hc '"' (by decide), hc '-' (by decide), if_false]
-      have hws : isWs (digitChar d) = false := by
-        have : d = 0 ∨ d = 1 ∨ d = 2 ∨ d = 3 ∨ d = 4 ∨ d = 5 ∨ d = 6 ∨ d = 7 ∨ d = 8 ∨ d = 9 := by
-          omega
-        rcases this with h | h | h | h | h | h | h | h | h | h <;> subst h <;> decide
-      simp [hws, hdv, h]
+    (hn : -2147483647 ≤ n ∧ n ≤ 2147483647) (hr : Terminated rest) :
+    lex (printInt n ++ rest) = (lex rest).cons (.int n) :=
+  lex_int n rest hn hr
 
 example : Terminated [')'] := ⟨by decide, by decide, by decide⟩
 
@@ -87,33 +73,8 @@ example : Terminated [')'] := ⟨by decide, by decide, by decide⟩
 dimension the language can express, printed by `Display for Scaled`, lexes to itself. -/
 theorem scaled_text_roundtrip (H : ScaledRoundTrip) (s : Int) (rest : List Char)
     (hs : -1073741823 ≤ s ∧ s ≤ 1073741823) (hr : WordEnd rest) :
-    (if s < 0 then lexNumber true ((printScaled s).tail ++ rest)
-     else lexNumber false (printScaled s ++ rest)) = .ok (.dim s, rest) := by
-  unfold printScaled printNoUnits
-  by_cases hneg : s < 0
-  · simp only [hneg, if_true, List.cons_append, List.nil_append, List.tail_cons, List.append_assoc]
-    have h1 := lexNumber_scaled H true s.natAbs ['p', 't'] rest (by decide) (by simp)
-    have h2 := lexUnit_pt H true s.natAbs (by omega) rest hr
-    unfold printNoUnits at h1
-    have e : ¬ ((s.natAbs : Int) < 0) := by omega
-    simp only [e, if_false, List.nil_append, Int.natAbs_natCast, List.append_assoc,
-      List.cons_append] at h1
-    rw [h1]
-    simp only [List.cons_append, List.nil_append] at h2
-    rw [h2]
-    simp; omega
-  · simp only [hneg, if_false, List.nil_append, List.append_assoc]
-    have h1 := lexNumber_scaled H false s.natAbs ['p', 't'] rest (by decide) (by simp)
-    have h2 := lexUnit_pt H false s.natAbs (by omega) rest hr
-    unfold printNoUnits at h1
-    have e : ¬ ((s.natAbs : Int) < 0) := by omega
-    simp only [e, if_false, List.nil_append, Int.natAbs_natCast, List.append_assoc,
-      List.cons_append] at h1
-    simp only [List.cons_append, List.nil_append]
-    rw [h1]
-    simp only [List.cons_append, List.nil_append] at h2
-    rw [h2]
-    simp; omega
+    lex (printScaled s ++ rest) = (lex rest).cons (.dim s) :=
+  lex_dim H s rest hs hr
 
 example : WordEnd [')'] := ⟨by decide, by decide⟩
 example : WordEnd [',', ' '] := ⟨by decide, by decide⟩
@@ -122,14 +83,8 @@ example : WordEnd [',', ' '] := ⟨by decide, by decide⟩
 other than `i32::MIN`. -/
 theorem infinite_glue_text_roundtrip (H : ScaledRoundTrip) (s : Int) (o : InfOrder)
     (rest : List Char) (hs : -2147483647 ≤ s ∧ s ≤ 2147483647) (hr : WordEnd rest) :
-    lexNumber (decide (s < 0)) (printNoUnits (s.natAbs : Int) ++ (o.unit ++ rest)) =
-      .ok (.inf s o, rest) := by
-  have hu : ∀ c ∈ o.unit, isAlpha c = true := by cases o <;> decide
-  have hne : o.unit ≠ [] := by cases o <;> simp [InfOrder.unit]
-  rw [lexNumber_scaled H _ s.natAbs o.unit rest hu hne, lexUnit_inf H _ s.natAbs (by omega) o rest hr]
-  by_cases hneg : s < 0
-  · simp [hneg]; omega
-  · simp [hneg]; omega
+    lex (printNoUnits s ++ (o.unit ++ rest)) = (lex rest).cons (.inf s o) :=
+  lex_inf H s o rest hs hr
 
 /-- `"normal" | "fil" | "fill" | "filll"` (the `glue_order` argument). -/
 theorem glue_order_keyword (o : Order) : Order.ofKeyword o.keyword = some o :=
@@ -243,9 +198,9 @@ example : exprList .H
 `exprList` excludes exactly these; each line shows that the restriction is needed. -/
 
 /-- A dimension of 16384pt = 2^30 sp is printed (`16384.0pt`) but the lexer rejects it. -/
-example : lexNumber false ['1', '6', '3', '8', '4', '.', '0', 'p', 't'] = .err := by rfl
+example : lexNumber false ['1', '6', '3', '8', '4', '.', '0', 'p', 't'] = .err .numberOutOfRange := by rfl
 /-- `i32::MIN` is printed (`-2147483648`) but the lexer rejects it (integers are in (-2^31, 2^31)). -/
-example : lexNumber true ['2', '1', '4', '7', '4', '8', '3', '6', '4', '8'] = .err := by rfl
+example : lexNumber true ['2', '1', '4', '7', '4', '8', '3', '6', '4', '8'] = .err .numberOutOfRange := by rfl
 /-- A rule dimension of exactly -2^31 sp *is* "running" (there is no other way to write it). -/
 example : runningVal (-2147483648) = .str ['r', 'u', 'n', 'n', 'i', 'n', 'g'] := by rfl
 /-- Kern kinds, glue kinds, mark contents and the glue set of a vbox have no syntax. -/
@@ -287,8 +242,122 @@ theorem parse_print_unconditional (m : Mode) (l : List Node) (he : exprList m l 
 
 theorem scaled_text_roundtrip_unconditional (s : Int) (rest : List Char)
     (hs : -1073741823 ≤ s ∧ s ≤ 1073741823) (hr : WordEnd rest) :
-    (if s < 0 then lexNumber true ((printScaled s).tail ++ rest)
-     else lexNumber false (printScaled s ++ rest)) = .ok (.dim s, rest) :=
+    lex (printScaled s ++ rest) = (lex rest).cons (.dim s) :=
   scaled_text_roundtrip scaledRoundTrip s rest hs hr
+
+/-! ## Text level
+
+`renderCalls` is the text `cst::pretty_print` writes (indentation, newlines, `", "`, one
+argument per line with trailing commas for calls with a list or five or more arguments,
+`[` … `]` blocks), `lex` is the lexer on characters. -/
+
+/-- The model lexer never runs out of fuel: on every text it returns a token list or an error
+class of lexer.rs. (The model has no panic outcome: with fix C18-a every overflow and every
+malformed escape of the real lexer is an error; this is the model-level half of "arbitrary
+text yields a list or located errors, never a panic".) -/
+theorem lex_total (s : List Char) : (∃ toks, lex s = .ok toks) ∨ (∃ e, lex s = .err e) := by
+  have h := lex_ne_unsupported s.length s (Nat.le_refl _)
+  cases hl : lex s with
+  | ok t => exact .inl ⟨t, rfl⟩
+  | err e => exact .inr ⟨e, rfl⟩
+  | unsupported => exact absurd hl h
+
+/-- Every step of the lexer consumes at least the character it looks at, so the result does
+not depend on the fuel once it exceeds the length of the text. -/
+theorem lex_fuel_irrelevant (s : List Char) (f : Nat) (hf : s.length < f) : lexAux f s = lex s :=
+  lexAux_fuel s.length s f (s.length + 1) (Nat.le_refl _) hf (Nat.lt_succ_self _)
+
+/-- **The lexer inverts the printer.** For every CST whose names are words and whose numbers
+the language can express (`callsOk`), lexing the printed text gives exactly the CST's tokens:
+for every nesting depth, both layouts, and every choice of unescaped characters. -/
+theorem lexer_inverts_printer (raw : Char → Bool) (cs : List Call) (hc : callsOk cs = true) :
+    lex (renderCalls raw 0 cs) = .ok (printCalls cs) :=
+  lex_render scaledRoundTrip raw cs hc
+
+/-- **The round trip at the text level.** Printing any expressible list (`Vec<_>::to_box_lang`
++ `cst::pretty_print`) and parsing the *text* back (lexer, CST parser, `Args::build`,
+`to_boxworks`) yields the same list — horizontal, vertical and discretionary lists, all 13
+node kinds, any nesting, any characters. -/
+theorem text_round_trip (raw : Char → Bool) (m : Mode) (l : List Node) (he : exprList m l = true) :
+    parseText m (renderNodes raw m l) = .ok l := by
+  unfold parseText renderNodes
+  rw [lex_render scaledRoundTrip raw _ (ok_lower m l he)]
+  have := parse_print scaledRoundTrip m l he
+  unfold printNodes at this
+  simp only [this]
+
+/-- The same for a horizontal list printed element by element (`Display for ds::Horizontal`,
+the way boxworks-testing prints). -/
+theorem text_round_trip_each (raw : Char → Bool) (l : List Node) (he : exprList .H l = true) :
+    parseText .H (renderEach raw l) = .ok l := by
+  unfold parseText renderEach
+  rw [lex_render scaledRoundTrip raw _ (ok_each l he)]
+  simp only [parse_print_each scaledRoundTrip l he]
+
+/-- `C18_full_statement` holds for the concrete renderer on the token lists the printer emits
+(the hypothesis "for all token lists" of `full_statement_of_lexer_inverse` is stronger than
+needed and false for, e.g., an integer token of 2^31). -/
+example : renderNodes (fun _ => true) .H [.char 'a' 1, .kern 0 (-98304)] =
+    "chars(\"a\", font=1)\nkern(-1.5pt)\n".toList := by decide +kernel
+example : renderNodes (fun _ => true) .V [.vbox 0 0 0 0 false [.penalty 5]] =
+    ("vbox(\n  height=0.0pt,\n  width=0.0pt,\n  depth=0.0pt,\n  shift_amount=0.0pt,\n" ++
+     "  content=[\n    penalty(5)\n  ],\n)\n").toList := by decide +kernel
+
+/-! ## Formatting at the text level
+
+`formatText` is `lang::format` on a text without comments (lex, parse to a CST, pretty-print
+with the printer's real layout). Comments are the part of formatting that stays
+correspondence-only: the model lexer drops them. -/
+
+/-- Every token the lexer produces can be printed back: names are words, numbers are in the
+ranges the text level carries (so the formatter never writes something it cannot read). -/
+theorem lexer_output_printable (s : List Char) (toks : List BTok) (h : lex s = .ok toks) :
+    toksOk toks = true :=
+  lex_toksOk s.length s toks (Nat.le_refl _) h
+
+/-- `format(format(s)) = format(s)`, on text. -/
+theorem format_text_idempotent (raw : Char → Bool) (src out : List Char)
+    (h : formatText raw src = .ok out) : formatText raw out = .ok out := by
+  unfold formatText at h
+  cases hl : lex src with
+  | err e => rw [hl] at h; cases h
+  | unsupported => rw [hl] at h; cases h
+  | ok toks =>
+    rw [hl] at h
+    simp only [] at h
+    cases hp : parseSource toks with
+    | none => rw [hp] at h; cases h
+    | some cs =>
+      rw [hp] at h
+      simp only [Res.ok.injEq] at h
+      subst h
+      have hc := parseSource_callsOk toks cs hp (lexer_output_printable src toks hl)
+      unfold formatText
+      rw [lex_render scaledRoundTrip raw cs hc]
+      simp only [parseSource_printCalls]
+
+/-- Formatting does not change what the text parses to, in every list kind. -/
+theorem format_text_preserves_meaning (raw : Char → Bool) (src out : List Char)
+    (h : formatText raw src = .ok out) (m : Mode) : parseText m out = parseText m src := by
+  unfold formatText at h
+  cases hl : lex src with
+  | err e => rw [hl] at h; cases h
+  | unsupported => rw [hl] at h; cases h
+  | ok toks =>
+    rw [hl] at h
+    simp only [] at h
+    cases hp : parseSource toks with
+    | none => rw [hp] at h; cases h
+    | some cs =>
+      rw [hp] at h
+      simp only [Res.ok.injEq] at h
+      subst h
+      have hc := parseSource_callsOk toks cs hp (lexer_output_printable src toks hl)
+      unfold parseText
+      rw [lex_render scaledRoundTrip raw cs hc, hl]
+      simp only [parseToks, parseSource_printCalls, hp]
+
+example : formatText (fun _ => true) "kern ( 1.5in,) # c".toList = .ok "kern(108.405pt)\n".toList := by
+  decide +kernel
 
 end C18
